@@ -21,7 +21,7 @@ func VerifC12Set() {
 	// mode 1 ("shape"): prefix with 0..1 elements, 0..elems path elements, names of <= 1 byte, optional key
 	maxElems, nameLen, withKey, prefixElems := 1, verifrt.Param("namelen"), false, 0
 	if verifrt.Fork("mode", 2) == 1 {
-		maxElems, nameLen, withKey, prefixElems = verifrt.Param("elems"), 1, true, 1
+		maxElems, nameLen, withKey, prefixElems = verifrt.Param("elems"), 1, true, verifrt.Param("prefixelems")
 	}
 	if !verifrt.NondetBool("prefix.absent") {
 		req.Prefix = &gnmi.Path{Target: vGenTarget("prefix.target"), Elem: vGenElems("prefix", prefixElems, 1, false)}
@@ -35,10 +35,13 @@ func VerifC12Set() {
 		req.Update = []*gnmi.Update{{Path: vGenPath("upd", maxElems, nameLen, withKey), Val: vGenValue("upd.val")}}
 	}
 	req.Extension = vGenExtensions("ext")
+	// the controllers complete the transaction: either the first event already shows it APPLIED, or COMMITTED first
+	// (an asynchronous Set answers then) and APPLIED afterwards (what a synchronous Set waits for)
 	vNEvents = 1
 	vStates[0] = int32(configapi.TransactionStatus_APPLIED)
-	if verifrt.NondetBool("committed-only") {
-		vStates[0] = int32(configapi.TransactionStatus_COMMITTED)
+	if verifrt.Fork("committed-first", 2) == 1 {
+		vNEvents = 2
+		vStates[0], vStates[1] = int32(configapi.TransactionStatus_COMMITTED), int32(configapi.TransactionStatus_APPLIED)
 	}
 	srv := vServer()
 	srv.gnmiSetSizeLimit = verifrt.NondetInt("sizelimit")
